@@ -54,6 +54,7 @@ type SliceV struct {
 	Event string   // non-empty when the bytes come from an iterator fetch: event id
 	Off   lin.Form // offset of element 0 inside the event / backing object
 	IsNil Tri
+	Elems []Val  // TrackBits: the elements, when the slice was built by short appends
 	Blob  string // non-empty: the bytes are exactly this byte string of the oracle's source
 }
 
